@@ -96,7 +96,7 @@ def run_unit(world, unit, timeout_ms=10000, budget_s=300, canary=False):
         if unit.canary and not res.exit_sat:
             # vacuity guard: the assumptions made on the way (preconditions, contracts of callees, lemma instances) are
             # satisfiable together at a function exit -- the postcondition `False` would fail here
-            res.exit_sat = it.path._check() == z3.sat
+            res.exit_sat = it.path.satisfiable()
         if canary:
             it.check("canary", z3.BoolVal(False))
             raise StopExploration()    # one reachable exit is all the vacuity check needs
